@@ -2180,3 +2180,93 @@ Proof.
       assert (Nu := write_udata_no_panic b v w); destruct (write_udata b v w); try discriminate; contradiction end.
   - discriminate.
 Qed.
+
+(* ------------------------------------------------------------------ round trip: decoding the written unit *)
+
+Definition is_unit_ref (o : wop) : bool := match o with WUnitRef _ _ => true | _ => false end.
+
+Lemma ops_resolved_noref f : forall ops, forallb (fun o => negb (is_unit_ref o)) ops = true ->
+  ops_resolved f ops = ops_bytes ops.
+Proof.
+  induction ops as [|o r IH]; intros H; [reflexivity|]. cbn [forallb] in H. apply andb_true_iff in H.
+  destruct H as [H1 H2]. unfold ops_resolved, ops_bytes in *. cbn [flat_map]. rewrite (IH H2).
+  destruct o; try reflexivity. discriminate.
+Qed.
+
+Lemma ops_resolved_app f a b : ops_resolved f (a ++ b) = ops_resolved f a ++ ops_resolved f b.
+Proof. unfold ops_resolved. apply flat_map_app. Qed.
+
+(* the ops of a value: a single unit-relative placeholder for UnitRef, no such placeholder otherwise *)
+Lemma av_write_refs dbg cx v ops :
+  av_write dbg cx v = Ok ops ->
+  match v with
+  | AvUnitRef id => ops = [WUnitRef id (wsz (wc_enc cx))]
+  | _ => forallb (fun o => negb (is_unit_ref o)) ops = true
+  end.
+Proof.
+  destruct cx as [e be u uoff ents codes line lstr str rng loc].
+  destruct e as [ver fmt asz].
+  intros H.
+  destruct v; unfold av_write in H; cbn [wc_enc wc_be wc_line wc_loc wc_rng wc_str wc_lstr] in *;
+    revert H; unfold_asserts; case_ver ver; destruct fmt; asserts; intros H.
+  all: try (exfalso; lia).
+  all: try match goal with H : match ?a with AConst _ => _ | ASym _ _ => _ end = _ |- _ => destruct a; [|discriminate] end.
+  all: try match goal with H : match ?l with Some _ => _ | None => _ end = Ok _ |- _ => destruct l; [|discriminate] end.
+  all: try match goal with H : match ?r with DSym _ => _ | DEntry _ _ => _ end = _ |- _ => destruct r; [discriminate|] end.
+  all: try match goal with H : (if valid_size ?s then _ else _) = _ |- _ => destruct (valid_size s) eqn:?; [|discriminate] end.
+  all: binds.
+  all: try match goal with H : Ok _ = Ok _ |- _ => injection H as <- end.
+  all: reflexivity.
+Qed.
+
+(* what a reader finds for an attribute once the placeholders are patched *)
+Definition av_final (cx : wcx) (f : eid -> list byte) (v : aval) : rval :=
+  match v with
+  | AvUnitRef id => RU (fixed_num (wc_be cx) (f id))
+  | _ => av_raw cx v
+  end.
+
+Definition attr_sem (cx : wcx) (f : eid -> list byte) (p : N * aval) : N * N * rval :=
+  (fst p, fst (av_form (wc_enc cx) (snd p)), av_final cx f (snd p)).
+
+Lemma dec_fixed_bytes w be (b rest : list byte) :
+  UnitWr.blen b = w -> dec_fixed w be (b ++ rest) = Some (RU (fixed_num be b), rest).
+Proof. intros <-. unfold dec_fixed. now rewrite take_n_blen. Qed.
+
+Lemma aspec_new_ok dbg name form ic s :
+  aspec_new dbg name form ic = Ok s ->
+  as_name s = name /\ as_form s = form /\ as_ic s = match ic with Some z => z | None => 0%Z end.
+Proof. unfold aspec_new. intros H. binds. injection H as <-. repeat split. Qed.
+
+Lemma decode_attrs_written dbg cx (f : eid -> list byte) : forall attrs aops specs rest,
+  attrs_write dbg cx attrs = Ok aops ->
+  attr_specs dbg (wc_enc cx) attrs = Ok specs ->
+  Forall (fun p => av_decodable (snd p)) attrs ->
+  (forall id, UnitWr.blen (f id) = wsz (wc_enc cx)) ->
+  decode_attrs (wc_enc cx) (wc_be cx) specs (ops_resolved f aops ++ rest) =
+  Some (map (attr_sem cx f) attrs, rest).
+Proof.
+  induction attrs as [|[n v] r IH]; intros aops specs rest HW HS HD Hf; cbn [attrs_write attr_specs] in *.
+  - injection HW as <-. injection HS as <-. reflexivity.
+  - apply bind_ok_inv in HW. destruct HW as [o [Eo HW]]. apply bind_ok_inv in HW. destruct HW as [ro [Ero HW]].
+    injection HW as <-.
+    destruct (av_form (wc_enc cx) v) as [form ic] eqn:EF.
+    apply bind_ok_inv in HS. destruct HS as [s [Es HS]]. apply bind_ok_inv in HS. destruct HS as [rs [Ers HS]].
+    injection HS as <-.
+    destruct (aspec_new_ok _ _ _ _ _ Es) as [A1 [A2 A3]].
+    assert (D1 := Forall_inv HD). assert (D2 := Forall_inv_tail HD). cbn [snd] in D1.
+    cbn [decode_attrs map]. rewrite ops_resolved_app, <- app_assoc.
+    assert (FD : form_decode (wc_enc cx) (wc_be cx) (as_form s) (as_ic s)
+                   (ops_resolved f o ++ ops_resolved f ro ++ rest) =
+                 Some (av_final cx f v, ops_resolved f ro ++ rest)).
+    { rewrite A2, A3. assert (R := av_write_refs _ _ _ _ Eo).
+      destruct v; try (rewrite (ops_resolved_noref f o R);
+                       assert (Dv := av_write_decodes dbg cx _ _ (ops_resolved f ro ++ rest) Eo D1);
+                       rewrite EF in Dv; cbn [fst snd] in Dv; exact Dv).
+      subst o. unfold ops_resolved at 1. cbn [flat_map op_resolved]. rewrite app_nil_r.
+      cbn [av_form] in EF. injection EF as <- <-. cbn [av_final].
+      unfold word_form, wsz in *. specialize (Hf id).
+      destruct (e_fmt64 (wc_enc cx)); [rewrite fd_ref8|rewrite fd_ref4]; now apply dec_fixed_bytes. }
+    rewrite FD. rewrite (IH _ _ _ Ero Ers D2 Hf).
+    unfold attr_sem at 2. cbn [fst snd]. rewrite A1, A2, EF. reflexivity.
+Qed.
